@@ -73,6 +73,8 @@ def run(ctx, model_ok):
             ('BSC_socket', 30): 'AF_INET6'}
     for m, b in zip(metas, darw['results']):
         key = (m[0], m[2][0] if m[0] == 'BSC_read' else m[1][0])
+        if m[0] == 'BSC_socket' and m[1][1] not in (1, 2, 3, 4, 5):
+            continue                    # a socket type outside Darwin's enum is not an individually well-formed record
         if key in spot and ('text' not in b or spot[key] not in txt(b)):
             ctx.failing.append({'input': {'kind': 'darwin-name', 'key': m[0], 'first': m[1], 'last': m[2]}, 'expected': spot[key],
                                 'actual': txt(b), 'why': 'with Darwin\'s tables the name shown is not Darwin\'s'})
